@@ -41,8 +41,11 @@ pub struct Conc { pub bytes: Vec<u8>, pub body: Vec<u8> }
 /// request k as bytes: head of exactly h cells (padded with a filler header), body of exactly b cells
 pub fn concretise(k: usize, r: &Value, seed: u64) -> Conc {
     let (h, b) = (i(&r["h"]) as usize, i(&r["b"]) as usize);
+    let bad = r["bad"].as_bool().unwrap_or(false);
     let mut head = format!("{} /r/{k}?s={seed} HTTP/1.1\r\nHost: h{k}.example\r\nX-Req: {k}\r\n", if b == 0 { "GET" } else { "POST" });
-    if r["many"].as_bool().unwrap_or(false) { for j in 0..5 { head.push_str(&format!("X-M{j}: v{k}-{j}\r\n")) } }
+    // a request the parser refuses after it has accepted some header lines (which must not leak into the next request)
+    if bad { head.push_str(&format!("Authorization: Bearer secret-of-{k}\r\nX-Mark: bad{k}\r\nX-Leak: leak{k}\r\nCookie: sid=bad{k}\r\nthis line has no colon\r\n")) }
+    if r["many"].as_bool().unwrap_or(false) && !bad { for j in 0..5 { head.push_str(&format!("X-M{j}: v{k}-{j}\r\n")) } }
     if r["mark"].as_bool().unwrap_or(false) { head.push_str(&format!("X-Mark: m{k}\r\n")) }
     if r["close"].as_bool().unwrap_or(false) { head.push_str("Connection: close\r\n") }
     if b > 0 { head.push_str(&format!("Content-Length: {}\r\n", b * CELL)) }
@@ -72,10 +75,15 @@ fn fresh(router: &v::VRouter, c: &Conc) -> Vec<u8> {
 }
 
 /// byte segments from the cell-level cuts; cuts inside a head or body are jittered by a few bytes (never across a part boundary)
-pub fn segments(stream: &[u8], cuts: &[Value], boundaries: &[usize], seed: u64) -> Vec<Vec<u8>> {
+pub fn segments(stream: &[u8], cuts: &[Value], boundaries: &[usize], hb: &[usize], seed: u64) -> Vec<Vec<u8>> {
     let mut pos: Vec<usize> = cuts.iter().enumerate().map(|(n, c)| {
         let p = i(c) as usize * CELL;
-        if boundaries.contains(&p) { p } else { let j = ((seed as usize + n * 7) % 41) as isize - 20; (p as isize + j) as usize }
+        // a cut between a head and its own body may fall a few bytes early, inside the blank line (\r\n\r|\n ..)
+        if hb.contains(&p) { return p - [0usize, 1, 2, 3, 0, 1][(seed as usize + n) % 6] }
+        if boundaries.contains(&p) { p } else {
+            // inside a head or a body: anywhere near, including the last bytes of the part
+            let j = [((seed as usize + n * 7) % 41) as isize - 20, 127, -127, 1, -1][(seed as usize / 3 + n) % 5];
+            (p as isize + j) as usize }
     }).collect();
     pos.push(stream.len());
     let mut out = vec![]; let mut from = 0;
@@ -185,9 +193,12 @@ pub fn run(scn: &Value) -> Value {
     let router = router();
     let concs: Vec<Conc> = reqs.iter().enumerate().map(|(k, r)| concretise(k + 1, r, seed)).collect();
     let fresh: Vec<Vec<u8>> = concs.iter().map(|c| fresh(&router, c)).collect();
-    let mut stream = vec![]; let mut boundaries = vec![]; let mut ends = vec![];
-    for (k, c) in concs.iter().enumerate() { boundaries.push(stream.len() + i(&reqs[k]["h"]) as usize * CELL); stream.extend_from_slice(&c.bytes); boundaries.push(stream.len()); ends.push(stream.len()) }
-    let segs = segments(&stream, arr(&scn["cuts"]), &boundaries, seed);
+    let mut stream = vec![]; let mut boundaries = vec![]; let mut ends = vec![]; let mut hb = vec![];
+    for (k, c) in concs.iter().enumerate() {
+        let he = stream.len() + i(&reqs[k]["h"]) as usize * CELL;
+        boundaries.push(he); if i(&reqs[k]["b"]) > 0 { hb.push(he) }
+        stream.extend_from_slice(&c.bytes); boundaries.push(stream.len()); ends.push(stream.len()) }
+    let segs = segments(&stream, arr(&scn["cuts"]), &boundaries, &hb, seed);
     // mem
     let (out, end, unread) = run_mem(&router, segs.clone());
     let mem = json!({"resp": classify(&out, &concs, &fresh), "end": end, "unread": unread});
@@ -203,7 +214,8 @@ pub fn gen(rng: &mut Rng, idx: usize) -> Value {
     let c05 = idx % 2 == 0;
     let n = rng.range(2, if c05 { 10 } else { 5 });
     let reqs: Vec<Value> = (0..n).map(|k| json!({"h": rng.range(1, 3), "b": if rng.chance(1, 2) { 0 } else { rng.range(1, 6) }, "close": k + 1 == n && rng.chance(1, 3),
-        "z": rng.chance(1, 3), "mark": rng.chance(1, 3), "many": rng.chance(1, 3)})).collect();
+        "z": rng.chance(1, 3), "mark": rng.chance(1, 3), "many": rng.chance(1, 3), "bad": false})).collect();
+    let reqs: Vec<Value> = reqs.into_iter().enumerate().map(|(k, mut r)| { if k + 1 < n && rng.chance(1, 6) { r["bad"] = json!(true); r["b"] = json!(0); r["close"] = json!(false); r["h"] = json!(rng.range(2, 3)) } r }).collect();
     let mut ends = vec![]; let mut tot = 0; for r in &reqs { tot += (i(&r["h"]) + i(&r["b"])) as usize; ends.push(tot) }
     let mut cuts: Vec<usize> = if c05 { ends[..ends.len() - 1].to_vec() } else {
         let mut cs: Vec<usize> = (1..tot).filter(|_| rng.chance(1, 3)).collect();
